@@ -1,7 +1,7 @@
 SPECIFICATION MCSpec
 CONSTANTS
-  TimeBound = 10
-  MCMaxP = 4
+  TimeBound = 7
+  MCMaxP = 3
   MCHour = 1
   MCRetry = 2
 INVARIANTS
